@@ -3,7 +3,8 @@
 
    c11m <nstart> <maxnon> <maxfail> <modes> <op>*
    c11a <nstart> <maxnon> <maxfail> <strict> <modes> { <op> { <out> }* }*
-     modes: comma list, one per resource (0 default, 1 NOTIFY_CON, 2 NOTIFY_NON_ALWAYS)
+     modes: comma list, one per resource: <mode>[/<initial observe value>]
+            (mode 0 default, 1 NOTIFY_CON, 2 NOTIFY_NON_ALWAYS)
      op:  R:<r>:<s>:<tok>:<opts>   register          C:<r>:<s>:<tok>:<opts>   cancel
           H:<r>                    change            I:<ca>                   I/O step
           A:<s>:<k>  ack           T:<s>:<k>  rst    F:<s>:<k>  give-up
@@ -97,9 +98,39 @@ let () = register "c11m" (fun args ->
   match args with
   | ns :: mn :: mf :: modes :: ops ->
       let p = params ns mn mf in
-      let st0 = ob_init (List.map zi (split ',' modes)) in
+      let st0 = ob_init (List.map (fun m -> match split '/' m with
+                                           | [a; b] -> (zi a, zi b)
+                                           | [a] -> (zi a, z_of_int 2)
+                                           | _ -> failwith "bad mode") (split ',' modes)) in
       let (st, tr) = ob_run p st0 (List.map op_of ops) in
       let groups = List.map (fun (_, outs) ->
           String.concat " " ("[" :: List.map out_str outs)) tr in
       String.concat " " groups ^ " | " ^ dump_state st
   | _ -> failwith "c11m args")
+
+(* c11a: feed a history (ops with the outputs observed at the implementation) to the acceptor *)
+let is_out s = String.length s > 1 && (match s.[0] with 'N' | 'G' | 'Q' -> true
+                                         | 'E' -> s.[1] >= '0' && s.[1] <= '9' | _ -> false)
+               && not (String.length s > 1 && s.[1] = ':')
+
+let () = register "c11a" (fun args ->
+  match args with
+  | ns :: mn :: _mf :: strict :: modes :: items ->
+      let c = { cf_modes = List.map (fun m -> zi (List.hd (split '/' m))) (split ',' modes); cf_nstart = zi ns; cf_max_non = zi mn;
+                cf_strict = (strict <> "0") } in
+      let rec groups acc cur items =
+        match items with
+        | [] -> List.rev (match cur with None -> acc | Some (op, outs) -> (op, List.rev outs) :: acc)
+        | x :: tl ->
+            if is_out x then
+              (match cur with
+               | Some (op, outs) -> groups acc (Some (op, out_of x :: outs)) tl
+               | None -> failwith "output before any op")
+            else
+              let acc = match cur with None -> acc | Some (op, outs) -> (op, List.rev outs) :: acc in
+              groups acc (Some (op_of x, [])) tl in
+      let tr = groups [] None items in
+      (match ac_run c (ac_init c) Z0 tr with
+       | Inl _ -> "ACCEPT"
+       | Inr (i, code) -> Printf.sprintf "REJECT %d %d" (int_of_z i) (int_of_z code))
+  | _ -> failwith "c11a args")
